@@ -223,11 +223,20 @@ func c13Run(kind string, ndest, queue int, alphabet []string, hist []int) (strin
 		tMin, tMax = 0, math.MaxInt64
 	}
 	for d, s := range sinks {
-		exp := 0
-		if len(want) > 0 {
-			exp = 1
-		}
-		dgs := s.drain(exp)
+		nwant := len(want)
+		dgs := s.drainUntil(func(d [][]byte) bool {
+			n := 0
+			for _, dg := range d {
+				if msg, err := decodeMessage(kind, dg); err == nil {
+					for _, m := range msg.Batch.Metrics {
+						if !strings.HasPrefix(m.Name, "tally.internal") {
+							n++
+						}
+					}
+				}
+			}
+			return n >= nwant
+		})
 		got, cl, det := m3Collect(kind, dgs, tMin, tMax)
 		if cl != "" {
 			return cl, fmt.Sprintf("[%s, %d destinations, queue %d] destination %d: %s", kind, ndest, queue, d, det), steps
